@@ -31,7 +31,7 @@ impl Engine for E {
         let quick = tier == Tier::Quick;
         let mut p = Plan { assumptions: ASSUME.iter().map(|s| s.to_string()).collect(), ..Plan::default() };
         if prop == "C14" {
-            p.cases = if quick { 1200 } else { 60_000 };
+            p.cases = if quick { 1200 } else { 40_000 };
             p.timeout_s = if quick { 600 } else { 3 * 3600 };
             p.crash_is_violation = true;
             p.hang_is_violation = true;
@@ -39,15 +39,16 @@ impl Engine for E {
             let mut floors: Vec<(String, u64)> = vec![];
             let v0 = ["accept", "simple_transfer", "send", "combine_and", "combine_or", "get_parameter_size", "get_parameter_section", "get_policy_section", "log_event", "load_state", "write_state", "resize_state", "state_size", "get_init_origin", "get_receive_invoker", "get_receive_self_address", "get_receive_self_balance", "get_receive_sender", "get_receive_owner", "get_slot_time"];
             for f in v0 {
-                floors.push((format!("host.v0.{}.calls", f), if quick { 15 } else { 300 }));
+                floors.push((format!("host.v0.{}.calls", f), if quick { 15 } else { 375 }));
             }
             for s in script::V1_SIGS {
-                floors.push((format!("host.v1.{}.calls", s.name), if quick { 15 } else { 300 }));
+                floors.push((format!("host.v1.{}.calls", s.name), if quick { 15 } else { 375 }));
             }
             for t in gen::LIMIT_TAGS {
-                floors.push((t.to_string(), if quick { 20 } else { 400 }));
+                floors.push((t.to_string(), if quick { 20 } else { 500 }));
             }
-            let f = |k: &str, q: u64, t: u64| (k.to_string(), if quick { q } else { t });
+            // thorough runs 33x the quick cases; floors are scaled by 25
+            let f = |k: &str, q: u64, _t: u64| (k.to_string(), if quick { q } else { 25 * q });
             floors.extend([
                 f("hostile.oob_pointer", 500, 20_000),
                 f("hostile.huge_len", 100, 4_000),
@@ -94,7 +95,7 @@ impl Engine for E {
                 f("allowlist.export.len101_rejected", 50, 2500),
             ]);
             p.floors = floors;
-            p.san = vec![SanTier { name: "asan", shards: 16, cases: if quick { 250 } else { 6_000 }, timeout_s: if quick { 600 } else { 3600 }, budget_s: if quick { 40 } else { 1200 } }];
+            p.san = vec![SanTier { name: "asan", shards: 16, cases: if quick { 250 } else { 6_000 }, timeout_s: if quick { 600 } else { 3600 }, budget_s: if quick { 40 } else { 600 } }];
         }
         p
     }
